@@ -31,6 +31,7 @@ def run_property(prop: str, root: str = None, tier: str = "quick"):
     from rules import common
     common.engine_assumptions(ck, an)
     common.defaults_table(ck, an, prop)
+    common.state_dependencies(ck, an, prop)
     if prop in ("C01", "C03", "C05", "C13"):
         common.contract_spec_table(ck, an)
     if prop in ("C03", "C11", "C12", "C17"):
